@@ -308,9 +308,29 @@ def run_context(ctx, repo, tier, fmt):
     # sign
     sign = diag_sign
     v = vals
-    while isinstance(v, Term) and v.op in ("neg", "negative"):
-        sign = -sign
-        v = v.args[0]
+    scale_bad = None
+    while isinstance(v, Term):
+        if v.op in ("neg", "negative"):
+            sign = -sign
+            v = v.args[0]
+        elif v.op in ("ravel", "flatten", "squeeze", "asarray", "array", "m.ravel", "m.flatten", "m.squeeze", "m.A1", "attr.A1"):
+            v = v.args[0]          # shape-only
+        elif v.op in ("mult", "div") and len(v.args) == 2 and any(isinstance(a_, Num) and a_.p.is_const() for a_ in v.args):
+            c_ = [a_ for a_ in v.args if isinstance(a_, Num) and a_.p.is_const()][0]
+            o_ = [a_ for a_ in v.args if a_ is not c_][0]
+            if v.op == "div" and v.args[1] is not c_:
+                break
+            cv = c_.p.as_const()
+            if cv in (1, -1):
+                sign = sign * (1 if cv == 1 else -1)
+            else:
+                scale_bad = cv
+            v = o_
+        else:
+            break
+    if scale_bad is not None:
+        ctx.violate("KERNEL", "C01.O5.scale", "the diagonal is a multiple other than -1 of the row sums: rows do not sum to zero", where,
+                    construct="diagonal values", witness=f"factor {scale_bad}")
     if isinstance(v, Term) and v.op == "spsum":
         ax = v.kw["axis"].v
         fs = v.args[0]
@@ -339,8 +359,8 @@ def run_context(ctx, repo, tier, fmt):
                     "np.add.reduceat(matrix.data, matrix.indptr[:-1])", witness=vstr(v)[:200])
     else:
         r = contains_top(vals)
-        (ctx.inconclusive if r else ctx.violate)("KERNEL", "C01.O5.vals", "diagonal values are not (minus) the row sums of "
-                                                 "the matrix", where, construct="diagonal values", witness=r or vstr(vals)[:300])
+        ctx.inconclusive("KERNEL", "C01.O5.vals", "diagonal values are not recognised as (minus) the row sums of the matrix", where,
+                         construct="diagonal values", witness=r or vstr(vals)[:300])
     if rows is not None:
         def is_arange_n(g):
             return isinstance(g, Grid) and g.ndim == 1 and len(g.dims[0]) == 1 and g.dims[0][0][1] == nV and \
